@@ -1,6 +1,7 @@
 package tls
 
 import (
+	"crypto/ecdh"
 	"crypto/mlkem"
 
 	"golang.org/x/crypto/sha3"
@@ -27,4 +28,32 @@ func kyberSharedSecret(c, K []byte) []byte {
 	out := make([]byte, 32)
 	h.Read(out)
 	return out
+}
+
+// ecdheKeyFor returns the ECDH private key behind the key share sent for group: the key
+// recorded for that group if there is one; otherwise the X25519 key generated for the hybrid
+// share (hybrid groups; a crypto/tls-built hello reuses ecdhe for it) or the single classical
+// key. It returns nil when no such key is held.
+func (ks *keySharePrivateKeys) ecdheKeyFor(group CurveID) *ecdh.PrivateKey {
+	if ks == nil {
+		return nil
+	}
+	if key := ks.ecdheKeys[group]; key != nil {
+		return key
+	}
+	if (group == X25519MLKEM768 || group == X25519Kyber768Draft00) && ks.mlkemEcdhe != nil {
+		return ks.mlkemEcdhe
+	}
+	return ks.ecdhe
+}
+
+// mlkemKeyFor returns the ML-KEM decapsulation key behind the hybrid key share sent for group.
+func (ks *keySharePrivateKeys) mlkemKeyFor(group CurveID) *mlkem.DecapsulationKey768 {
+	if ks == nil {
+		return nil
+	}
+	if key := ks.mlkemKeys[group]; key != nil {
+		return key
+	}
+	return ks.mlkem
 }
